@@ -536,10 +536,61 @@ func redactRecursively(obj interface{}, paths []string) (newObj interface{}, err
 				}
 			})
 		} else {
-			err = jsonPath.Set(newObj, REDACTED)
+			err = redactMatches(newObj, jsonPath)
 		}
 	}
 	return
+}
+
+// redactMatches puts the redaction marker into the locations that the path denotes.
+// `jp.(*Expr).Set` adds the missing keys along a path. For a wildcard or a recursive
+// descent this means that every element which lacks the rest of the path gains it.
+// So the parents are looked up and only their existing members are replaced.
+func redactMatches(obj interface{}, jsonPath jp.Expr) error {
+	last := len(jsonPath) - 1
+	parents := []interface{}{obj}
+	if last > 0 {
+		parents = jsonPath[:last].Get(obj)
+	}
+
+	switch frag := jsonPath[last].(type) {
+	case jp.Child:
+		for _, parent := range parents {
+			if object, ok := parent.(map[string]interface{}); ok {
+				if _, ok := object[string(frag)]; ok {
+					object[string(frag)] = REDACTED
+				}
+			}
+		}
+	case jp.Nth:
+		for _, parent := range parents {
+			if array, ok := parent.([]interface{}); ok {
+				i := int(frag)
+				if i < 0 {
+					i += len(array)
+				}
+				if 0 <= i && i < len(array) {
+					array[i] = REDACTED
+				}
+			}
+		}
+	case jp.Wildcard:
+		for _, parent := range parents {
+			switch parent := parent.(type) {
+			case map[string]interface{}:
+				for key := range parent {
+					parent[key] = REDACTED
+				}
+			case []interface{}:
+				for i := range parent {
+					parent[i] = REDACTED
+				}
+			}
+		}
+	default:
+		return jsonPath.Set(obj, REDACTED)
+	}
+	return nil
 }
 
 func redact(args ...interface{}) (interface{}, interface{}) {
